@@ -145,7 +145,8 @@ PropVerdict ==
       [] Prop = "C08" -> IF ~C08_Judged(HistDocs, louts) THEN "outside"
                          ELSE IF C08_Holds(HistDocs, louts) THEN "holds" ELSE "violated"
       [] Prop = "C14" -> IF lbuilt.status = "none" THEN "outside"
-                         ELSE IF C14_Holds(louts, lbuilt) THEN "holds" ELSE "violated"
+                         ELSE IF C14_Holds(louts, lbuilt) /\ (Len(louts) >= 1 => C14_Survivors(HistDocs, louts[Len(louts)]))
+                              THEN "holds" ELSE "violated"
       [] Prop = "C16" -> IF ~C16_Judged(HistDocs, louts) THEN "outside"
                          ELSE IF C16_Holds(HistDocs, louts) THEN "holds" ELSE "violated"
       [] Prop = "C15" -> IF ~C15_InDomain(HistDocs) THEN "outside"
